@@ -168,6 +168,18 @@ func genMutCase(r *Rng, id int, tier string) *Sx {
 				op, path = "ipv6cidr", Pick(r, cidrPaths)
 			}
 		}
+		if r.P(12) {
+			// a rule peer of an admin policy left with neither `namespaces` nor `pods` (dropped, nulled or emptied)
+			var peerPaths []string
+			for _, p := range paths {
+				if (strings.Contains(p, "|from|") || strings.Contains(p, "|to|")) && (strings.HasSuffix(p, "|namespaces") || strings.HasSuffix(p, "|pods")) {
+					peerPaths = append(peerPaths, p)
+				}
+			}
+			if len(peerPaths) > 0 {
+				op, path = Pick(r, []string{"drop", "null"}), Pick(r, peerPaths)
+			}
+		}
 		c.Add(Ls(At("m"), Ai(int64(d)), At(path), At(op)))
 	}
 	return c
